@@ -357,5 +357,10 @@ impl DecoderScratch {
     }
 }
 
+pub proof fn verif_canary_must_fail(x: int)
+    requires x > 0,
+    ensures x > 1,
+{
+}
 } // verus!
 fn main() {}
